@@ -184,6 +184,51 @@ def race_engine(pid, tier, seed, exe, workdir, V):
     if races:
         first = txt[txt.index('WARNING: DATA RACE'):][:1800]
         res['oracle_failures'].append({'line': '! C08 race detector report', 'replay': first.splitlines(), 'hist': 'concurrent workload'})
+    return lin_engine(res, tier, seed, exe, workdir, V)
+
+
+def lin_engine(res, tier, seed, exe, workdir, V):
+    """C08: small concurrent histories (2-3 goroutines x 2-4 CRUD calls on one handle, contended unique
+    keys, final Count/All), each checked for linearizability against the EXTRACTED sequential model
+    (Wing-Gong search in ocaml/driver -lin)."""
+    import concurrent.futures
+    n = 60 if tier == 'quick' else 1500
+    drv = os.path.join(V, 'ocaml', 'driver')
+
+    def one(i):
+        out = os.path.join(workdir, 'lin_%d.txt' % i)
+        _sh([exe, '-lin', '-seed', str(seed), '-first', str(i * n), '-n', str(n), '-out', out], timeout=3000)
+        if not os.path.exists(out):
+            return '', ''
+        r = subprocess.run([drv, '-lin', out], stdout=subprocess.PIPE, stderr=subprocess.STDOUT, text=True, timeout=3000)
+        return open(out).read(), r.stdout
+    tot = bad = gave = 0
+    with concurrent.futures.ThreadPoolExecutor(max_workers=16) as ex:
+        for txt, verdicts in ex.map(one, range(16)):
+            hists = {}
+            cur = None
+            for l in txt.splitlines():
+                if l.startswith('hist '):
+                    cur = l
+                    hists[cur] = []
+                elif cur is not None and (l.startswith(('cfg', 'fields', 'op ', 'conc', 'c '))):
+                    hists[cur].append(l)
+            for l in verdicts.splitlines():
+                if not l.startswith('lin '):
+                    continue
+                tot += 1
+                if 'NOT-LINEARIZABLE' in l:
+                    bad += 1
+                    key = l[4:l.index(' calls=')]
+                    res['oracle_failures'].append({'line': '! C08 concurrent history not linearizable w.r.t. the extracted sequential model: ' + key,
+                                                   'replay': hists.get(key, [])[:80], 'hist': key})
+                elif 'gave-up' in l:
+                    gave += 1
+    res['evaluations'] += tot
+    res['nontrivial'] = res.get('nontrivial', 0) + tot - gave
+    res['summary'] = res.get('summary', '') + '\nlinearizability: %d concurrent histories searched against the extracted model, %d not linearizable, %d search budget exceeded' % (tot, bad, gave)
+    if tot == 0:
+        res['broken'] = 'linearizability engine produced nothing'
     return res
 
 
